@@ -1,6 +1,171 @@
-(* C01 — property theorems only. *)
-From GL Require Import Common.Bytes Lua.Syntax Lua.Values Lua.Eval Lua.Run Lua.EvalFacts.
+(* C01 — property theorems only. Meta-theory of the reference evaluator's core language: for
+   all expressions, statements, environments, states and fuel. [eval_deterministic] is
+   definitional (the evaluator is a Gallina function). *)
+From GL Require Import Common.Bytes Lua.Syntax Lua.Num Lua.Values Lua.Names Lua.Eval
+  Lua.ValuesFacts Lua.TableFacts Lua.MonadFacts Lua.EvalStepFacts Lua.CallFacts Lua.CoreFacts.
 
 Theorem adjust_spec : forall n vs, length (adjust n vs) = n /\ forall i, (i < n)%nat -> nth i (adjust n vs) VNil = nth i vs VNil.
-Proof. exact adjust_spec_lemma. Qed.
+Proof. exact adjust_spec_full_lemma. Qed.
 Print Assumptions adjust_spec.
+
+Theorem eval_deterministic : forall n cx ln en e s r1 r2,
+  eval_e n cx ln en e s = r1 -> eval_e n cx ln en e s = r2 -> r1 = r2.
+Proof. exact eval_deterministic_lemma. Qed.
+Print Assumptions eval_deterministic.
+
+(* logical operators return one of their operands; the second is evaluated only when needed *)
+Theorem logical_value_and : forall n cx ln en a b s,
+  eval_e (S n) cx ln en (EAnd a b) s =
+  bind (eval_e n cx ln en a s) (fun av => if truthy av then eval_e n cx ln en b else ret av).
+Proof. exact and_value_lemma. Qed.
+Print Assumptions logical_value_and.
+
+Theorem logical_value_or : forall n cx ln en a b s,
+  eval_e (S n) cx ln en (EOr a b) s =
+  bind (eval_e n cx ln en a s) (fun av => if truthy av then ret av else eval_e n cx ln en b).
+Proof. exact or_value_lemma. Qed.
+Print Assumptions logical_value_or.
+
+Theorem and_short_circuit : forall n cx ln en a b s av s1,
+  eval_e n cx ln en a s = Ret av s1 -> truthy av = false ->
+  eval_e (S n) cx ln en (EAnd a b) s = Ret av s1.
+Proof. exact and_false_lemma. Qed.
+Print Assumptions and_short_circuit.
+
+Theorem and_second : forall n cx ln en a b s av s1,
+  eval_e n cx ln en a s = Ret av s1 -> truthy av = true ->
+  eval_e (S n) cx ln en (EAnd a b) s = eval_e n cx ln en b s1.
+Proof. exact and_true_lemma. Qed.
+Print Assumptions and_second.
+
+Theorem or_short_circuit : forall n cx ln en a b s av s1,
+  eval_e n cx ln en a s = Ret av s1 -> truthy av = true ->
+  eval_e (S n) cx ln en (EOr a b) s = Ret av s1.
+Proof. exact or_true_lemma. Qed.
+Print Assumptions or_short_circuit.
+
+Theorem or_second : forall n cx ln en a b s av s1,
+  eval_e n cx ln en a s = Ret av s1 -> truthy av = false ->
+  eval_e (S n) cx ln en (EOr a b) s = eval_e n cx ln en b s1.
+Proof. exact or_false_lemma. Qed.
+Print Assumptions or_second.
+
+Theorem logical_value_not : forall n cx ln en a s,
+  eval_e (S (S n)) cx ln en (EUn ONot a) s =
+  bind (eval_e (S n) cx ln en a s) (fun av s1 => Ret (VBool (negb (truthy av))) s1).
+Proof. exact not_value_lemma. Qed.
+Print Assumptions logical_value_not.
+
+Theorem truthy_spec : forall v, truthy v = false <-> v = VNil \/ v = VBool false.
+Proof. exact truthy_spec_lemma. Qed.
+Print Assumptions truthy_spec.
+
+Theorem eparen_single : forall n cx ln en a, eval_e (S n) cx ln en (EParen a) = eval_e n cx ln en a.
+Proof. exact eparen_value_lemma. Qed.
+Print Assumptions eparen_single.
+
+(* a condition matters only through its truth value *)
+Theorem cond_equiv : forall n cx en ln c c' th el s cv cv' s1,
+  eval_e n cx ln en c s = Ret cv s1 -> eval_e n cx ln en c' s = Ret cv' s1 -> truthy cv = truthy cv' ->
+  exec (S n) cx en (SIf ln c th el) s = exec (S n) cx en (SIf ln c' th el) s.
+Proof. exact cond_same_truth_lemma. Qed.
+Print Assumptions cond_equiv.
+
+(* multiple assignment: all left prefixes/keys, then all right-hand sides, then the stores *)
+Theorem assign_eval_order : forall n cx en ln lhs es s refs s1 vs s2,
+  mapM (assign_ref n cx ln en) lhs s = Ret refs s1 ->
+  eval_list_with (eval_e n cx ln en) (eval_multi n cx ln en) es s1 = Ret vs s2 ->
+  exec (S n) cx en (SAssign ln lhs es) s =
+  bind (mapM (assign_store n cx ln) (rev (combine refs (adjust (length refs) vs))) s2)
+       (fun _ s3 => Ret (SigNormal, en) s3).
+Proof. exact assign_eval_order_lemma. Qed.
+Print Assumptions assign_eval_order.
+
+(* ... so that for local targets cell i receives the i-th adjusted right value computed in the
+   pre-statement store (`a, b = b, a` swaps) *)
+Theorem assign_locals_simultaneous : forall n cx en ln xs cs es s vs s2,
+  Forall2 (fun x c => lookup en x = Some c) xs cs -> NoDup cs ->
+  (forall c, In c cs -> (c < length (cells s2))%nat) ->
+  eval_list_with (eval_e n cx ln en) (eval_multi n cx ln en) es s = Ret vs s2 ->
+  exists s3, exec (S n) cx en (SAssign ln (map EVar xs) es) s = Ret (SigNormal, en) s3 /\
+    (forall i, (i < length cs)%nat -> nth (nth i cs O) (cells s3) VNil = nth i vs VNil) /\
+    (forall j, ~ In j cs -> nth j (cells s3) VNil = nth j (cells s2) VNil) /\
+    tabs s3 = tabs s2 /\ clos s3 = clos s2 /\ trace s3 = trace s2.
+Proof. exact assign_locals_lemma. Qed.
+Print Assumptions assign_locals_simultaneous.
+
+(* tables are finite maps *)
+Theorem kv_get_set_same : forall kv k v, raweq k k = true -> is_nil v = false -> kv_get (kv_set kv k v) k = v.
+Proof. exact kv_get_set_same_lemma. Qed.
+Print Assumptions kv_get_set_same.
+
+Theorem kv_get_set_other : forall kv k v k2, sep kv k k2 -> kv_get (kv_set kv k v) k2 = kv_get kv k2.
+Proof. exact kv_get_set_other_lemma. Qed.
+Print Assumptions kv_get_set_other.
+
+Theorem kv_get_set_other_nofloat : forall kv k v k2,
+  no_float k -> no_float k2 -> k <> k2 -> kv_get (kv_set kv k v) k2 = kv_get kv k2.
+Proof. exact kv_get_set_other_nofloat_lemma. Qed.
+Print Assumptions kv_get_set_other_nofloat.
+
+Theorem kv_set_nil_deletes : forall kv k, (kv_count kv k <= 1)%nat -> kv_get (kv_set kv k VNil) k = VNil.
+Proof. exact kv_set_nil_deletes_lemma. Qed.
+Print Assumptions kv_set_nil_deletes.
+
+Theorem kv_set_keeps_keys_unique : forall kv k v, (kv_count kv k <= 1)%nat -> (kv_count (kv_set kv k v) k <= 1)%nat.
+Proof. exact kv_count_set_same_lemma. Qed.
+Print Assumptions kv_set_keeps_keys_unique.
+
+Theorem kv_set_never_stores_nil : forall kv k v, no_nil_values kv -> no_nil_values (kv_set kv k v).
+Proof. exact kv_set_no_nil_lemma. Qed.
+Print Assumptions kv_set_never_stores_nil.
+
+Theorem border_is_border : forall kv n,
+  border kv = n ->
+  0 <= n /\ (forall i, 1 <= i <= n -> is_nil (kv_get kv (vint i)) = false) /\
+  (vint_sep kv (n + 1) -> is_nil (kv_get kv (vint (n + 1))) = true).
+Proof. exact border_is_border_lemma. Qed.
+Print Assumptions border_is_border.
+
+Theorem vint_sep_decidable : forall kv m, vint_sep_b kv m = true -> vint_sep kv (Z.of_nat m).
+Proof. exact vint_sep_b_sound_lemma. Qed.
+Print Assumptions vint_sep_decidable.
+
+(* coercion rules *)
+Theorem eq_no_coercion : forall n fr b f s,
+  eq_v (S n) fr (VStr b) (VNum f) s = Ret false s /\ eq_v (S n) fr (VNum f) (VStr b) s = Ret false s.
+Proof. exact eq_no_coercion_lemma. Qed.
+Print Assumptions eq_no_coercion.
+
+Theorem lt_mixed_error : forall n fr b f s,
+  lt_v (S n) fr (VNum f) (VStr b) s = Err (VFault 4 (frames_line fr)) s /\
+  lt_v (S n) fr (VStr b) (VNum f) s = Err (VFault 4 (frames_line fr)) s.
+Proof. exact lt_mixed_error_lemma. Qed.
+Print Assumptions lt_mixed_error.
+
+Theorem arith_coerces_strings : forall n fr o b f y s,
+  is_arith o = true -> text_to_f b = PNum f ->
+  binop_v (S n) fr o (VStr b) (VNum y) s =
+  match arith_op o f y with Some r => Ret (VNum r) s | None => Unsup 1 end.
+Proof. exact arith_coerces_strings_lemma. Qed.
+Print Assumptions arith_coerces_strings.
+
+Theorem concat_accepts_numbers : forall n fr b f t s,
+  f_to_text f = Some t -> binop_v (S n) fr OConcat (VStr b) (VNum f) s = Ret (VStr (b ++ t)) s.
+Proof. exact concat_accepts_numbers_lemma. Qed.
+Print Assumptions concat_accepts_numbers.
+
+(* fuel: the combinators preserve "more fuel only refines an OutOfFuel result" *)
+Theorem fuel_mono_bind : forall A B (r r' : res A) (f f' : A -> state -> res B),
+  rle r r' -> (forall a s, rle (f a s) (f' a s)) -> rle (bind r f) (bind r' f').
+Proof. exact @rle_bind_lemma. Qed.
+Print Assumptions fuel_mono_bind.
+
+Theorem fuel_mono_catch : forall A (r r' : res A) (h h' : value -> state -> res A),
+  rle r r' -> (forall v s, rle (h v s) (h' v s)) -> rle (catch r h) (catch r' h').
+Proof. exact @rle_catch_lemma. Qed.
+Print Assumptions fuel_mono_catch.
+
+Theorem fuel_mono_done : forall A (r r' : res A), rle r r' -> is_eff r = false -> r <> OutOfFuel -> r' = r.
+Proof. exact @rle_done_lemma. Qed.
+Print Assumptions fuel_mono_done.
